@@ -124,6 +124,10 @@ func (pres *Presence) UnmarshalXML(d *xml.Decoder, start xml.StartElement) error
 					err = d.DecodeElement(&pres.Priority, &tt)
 				case "error":
 					err = d.DecodeElement(&pres.Error, &tt)
+				default:
+					// An element we do not know: consume it, so that nothing inside it is taken for
+					// a child (or for the end) of this presence
+					err = d.Skip()
 				}
 				if err != nil {
 					return err
